@@ -1,6 +1,6 @@
 --------------------------- MODULE MC_Modules ---------------------------
 EXTENDS Modules, Json
-SiteSeq == <<<<"T", "A">>, <<"T", "B">>, <<"T", "k">>, <<"T", "G">>, <<"A", "B">>, <<"T", "E">>, <<"T", "E2">>>>
+SiteSeq == <<<<"T", "A">>, <<"T", "B">>, <<"T", "k">>, <<"T", "G">>, <<"A", "B">>, <<"T", "E">>, <<"T", "E2">>, <<"T", "E3">>>>
 EmitInv == PrintT(<<"LAYOUT", ToJson([dname |-> [d \in Decls |-> DeclaredName(d)], place |-> place, exp |-> exp, kind |-> kind, decoy |-> decoy,
                                       imp |-> [i \in DOMAIN SiteSeq |-> [u |-> SiteSeq[i][1], d |-> SiteSeq[i][2], st |-> imp[SiteSeq[i]]]],
                                       broken |-> [u |-> broken[1], d |-> broken[2]], expected |-> ExpectedOutcome, steps |-> steps])>>)
